@@ -59,6 +59,7 @@ def run(chk: Check, proj: Project) -> None:
     s5b_serialize_order(chk, proj)
     s6_container_loop(chk, proj)
     s13_close_matches_open(chk, proj)
+    s14_constant_index_guarded(chk, proj)
     s11_builtins_fed_with_tag_text(chk, proj)
     s7_foreign_leaks(chk, proj)
     s8_built_patterns(chk, proj)
@@ -738,6 +739,34 @@ def s11_builtins_fed_with_tag_text(chk: Check, proj: Project) -> None:
                    f"the class name depends on {sorted(deps) or 'constants'} only" if not text_params else
                    f"`{short(c, 70)}` names the class after `{', '.join(sorted(text_params))}`, text taken from the template: `{{% component \"a\\x00b\" %}}` as the first component tag compiled makes type() raise ValueError ('type name must not contain null characters') instead of TemplateSyntaxError")
     chk.floor("S11", n, 1)
+
+
+def s14_constant_index_guarded(chk: Check, proj: Project) -> None:
+    chk.rule("S14", "in the tag front end (tag formatter, parse_template_tag) an element taken at a constant position (`xs[0]`, `xs[-1]`) of a list that comes from the tag's text is read only under a non-emptiness fact about that SAME list (`if not xs: raise TemplateSyntaxError`, `len(xs)`, `if xs`): a bare `{% component %}`, or a tag whose last attribute is the empty literal `[]` / `{}`, otherwise ends in IndexError instead of TemplateSyntaxError")
+    n = 0
+    for mn in ("util.template_tag", "tag_formatter"):
+        m = proj.mod(mn)
+        for q, f in sorted(m.defs.items()):
+            if not isinstance(f, ast.FunctionDef):
+                continue
+            for x in ast.walk(f):
+                if not (isinstance(x, ast.Subscript) and isinstance(x.ctx, ast.Load)):
+                    continue
+                sl = x.slice
+                if not ((isinstance(sl, ast.Constant) and isinstance(sl.value, int) and not isinstance(sl.value, bool)) or (isinstance(sl, ast.UnaryOp) and isinstance(sl.op, ast.USub) and isinstance(sl.operand, ast.Constant))):
+                    continue
+                base = norm(x.value)
+                if base in ("Tuple", "List", "Optional", "Dict", "Literal", "Union", "Type", "Callable"):
+                    continue
+                # a tuple produced by a fixed-arity construct (str.partition / split with maxsplit is NOT fixed-arity)
+                n += 1
+                chk.analysed(fkey(m, f))
+                facts = [(e, pol) for e, pol in flatten_conj(path_conditions(x)) if base in norm(e)]
+                ok = any((pol and (norm(e) == base or norm(e) in (f"len({base})", f"len({base}) > 0", f"len({base}) != 0", f"len({base}) >= 1"))) for e, pol in facts)
+                chk.ob("S14", f"{mn}:{q}:{norm(x)}:non-empty-fact", m.loc(x), ok,
+                       f"`{norm(x)}` is read under a non-emptiness fact about `{base}`" if ok else
+                       f"`{norm(x)}` is read without any fact about `{base}` being non-empty: when the tag's text leaves that list empty (a component tag without arguments; a last attribute written as the empty literal `[]` / `{{}}`) template compilation dies with IndexError instead of TemplateSyntaxError")
+    chk.floor("S14", n, 2)
 
 
 def s13_close_matches_open(chk: Check, proj: Project) -> None:
